@@ -572,14 +572,9 @@ def stepReg (st : DState) (args : List String) : Option (DState × String) :=
     match Rounding.ofName? dflt, unitId? r u, parseAmount? k with
     | some d, some u, some k =>
       let v : Except Err Val := match op with
-        | "mul" | "rmul" => (r.mkQty d none k u).map Val.qty
-        | "div" => if k = 0 then .error .ZeroDivisionError
-                   else (r.mkQty d none (1 / k) u).map Val.qty
-        | _ => match q.powUnit d u (-1) with          -- "rdiv"
-          | .error e => .error e
-          | .ok (.qty x) => q.qtyScale d x k
-          | .ok (.num x) => .ok (.num (k * x))
-          | .ok v => .ok v
+        | "mul" | "rmul" => q.unitTimesNum d u k
+        | "div" => q.unitDivNum d u k
+        | _ => q.numDivUnit d k u                       -- "rdiv"
       some (st, showVRes r v)
     | _, _, _ => some (st, bad)
   | ["q_hash", a, b] =>
